@@ -23,7 +23,7 @@ REGION = {
 }
 RULE = (
     "case = (family, generating parameters from the regular region REGION (printed in the evidence) with data median in [0.05,20], n in 100..5000, "
-    "start values: library default | user start = generating values perturbed by factors in [0.5,2] | generating values, scale factor c keeping "
+    "history: none | an instance of the same family fitted with fixed parameters earlier in the process; start values: library default | user start = generating values perturbed by factors in [0.5,2] | generating values, scale factor c keeping "
     "c*median in [0.05,20]). A monitor on Distribution.fit(method='mle') records start and fitted parameters; the log-likelihood is computed with the "
     "reference pdf. Clauses: LL(fit) >= LL(start) - slack (start admissible), LL(fit) >= LL(generating) - slack, finite and admissible estimates, "
     "equivariance judged in likelihood space (neither fit beaten by the other one rescaled by more than tau); parameter-space equality for the "
@@ -76,7 +76,7 @@ def gen_cases(tier, seed):
             if abs(math.log(c)) < 0.2:
                 c = c * 1.7 if c * 1.7 * med <= 20 else c / 1.7
             start_kind = ["default", "perturbed", "generating"][r % 3]
-            cases.append({"fam": fam, "gen": p, "n": n, "c": c, "start": start_kind, "sub": int(rng.integers(1 << 31)), "cost": n / 500})
+            cases.append({"fam": fam, "gen": p, "n": n, "c": c, "start": start_kind, "prelude": bool(r % 2), "sub": int(rng.integers(1 << 31)), "cost": n / 500})
     return cases
 
 
@@ -180,6 +180,23 @@ def run_case(case, ctx):
     tau = 0.05 + 1e-4 * n
     info = {"family": fam, "generating": gen, "n": n, "start_kind": case["start"]}
 
+    if case.get("prelude"):
+        # call history: another instance of the family was fitted with FIXED parameters earlier in this process
+        # (what every predefined conditional model does); it must not influence the fit that is judged
+        ctx.cls("history", "after-a-fit-with-fixed-parameters")
+        others = [k for k in names]
+        rng2 = np.random.default_rng(case["sub"] + 1)
+        sub = [k for k in others if rng2.random() < 0.5] or [others[0]]
+        if len(sub) == len(others):
+            sub = sub[:-1]
+        if sub:
+            alt = _draw(rng2, fam)
+            try:
+                with M.quiet():
+                    S.classes()[fam](**{f"f_{k}": alt[k] for k in sub}).fit(x)
+                ctx.count("c12.prelude-fit-with-fixed-parameters")
+            except Exception:  # noqa: BLE001 - the prelude is only history
+                ctx.count("c12.prelude-failed")
     d1, obs1 = _fit(fam, start, x)
     if obs1.get("after") is None:
         ctx.check("c12.fit-observed-state", False, f"{fam}: MLE fit was not observed by the monitor or raised", exc=repr(obs1.get("exc")), **info)
